@@ -1,1 +1,476 @@
-//! Shared SQL runner for the umbrella-level harness crates.
+//! `vf-df` — the shared SQL case runner (DESIGN.md §3.4) for every umbrella-level harness crate.
+//!
+//! # Public API
+//! * [`Variant`] — plain-data description of one execution configuration: session options as key/value
+//!   strings, `target_partitions`, `batch_size`, how MemTables are split (`mem_partitions`, `batch_rows`),
+//!   string encoding, tokio flavour / workers, per-case timeout. `Variant::default()` = 1 partition,
+//!   engine defaults, current-thread runtime, Utf8 strings.
+//! * [`run_sql`]`(tables, sql, &variant, want_plans) -> RunOutput` — fresh runtime + fresh `SessionContext`
+//!   per call; registers the tables as MemTables, plans and executes the SQL text.
+//!   [`run_sql_with`] additionally takes a closure customising the `SessionStateBuilder` (C03 installs
+//!   optimizer rule lists there) and [`run_in_context`] gives full control (async closure over the context).
+//! * [`RunOutput`]`{outcome: Outcome, columns, plans, elapsed_ms}` with [`Outcome`]` = Rows(Vec<Vec<Value>>) |
+//!   Error(ErrInfo{class, stage, message}) | Timeout`. [`ErrClass`] is derived from
+//!   `DataFusionError::find_root()` (`Plan | SchemaError | Sql | NotImplemented | Internal | Execution |
+//!   DivideByZero | ArrowCast | ArrowOther | ResourcesExhausted | Io | External | Configuration | Other`).
+//! * Arrow ↔ `Value`: [`batches_to_rows`], [`array_value`], [`table_to_batches`], [`schema_of`],
+//!   [`mem_table`]; [`build_context`]`(&variant, customize)`; [`build_runtime`]`(&variant)`.
+//! * comparison: re-exported `vf_kit::refsql::{multiset_diff, check_result, …}` via [`refsql`].
+//!
+//! All integer widths → `Value::Int`, all string encodings → `Value::Str`, Float16/32/64 → `Value::Float`,
+//! Decimal / Date / Timestamp / nested types → `Value::Str` of the display form (not produced by the refsql fragment).
+use datafusion::arrow::array::*;
+use datafusion::arrow::datatypes::{DataType, Field, Schema, SchemaRef};
+use datafusion::arrow::error::ArrowError;
+use datafusion::arrow::record_batch::RecordBatch;
+use datafusion::arrow::util::display::{ArrayFormatter, FormatOptions};
+use datafusion::catalog::MemTable;
+use datafusion::error::DataFusionError;
+use datafusion::execution::SessionStateBuilder;
+use datafusion::execution::runtime_env::RuntimeEnv;
+use datafusion::prelude::{SessionConfig, SessionContext};
+use serde::{Deserialize, Serialize};
+use std::sync::Arc;
+use std::time::{Duration, Instant};
+pub use vf_kit::refsql;
+use vf_kit::refsql::{ColDef, Table, Ty, Value};
+
+#[derive(Clone, Copy, Debug, PartialEq, Eq, Serialize, Deserialize)]
+pub enum StrEncoding {
+    Utf8,
+    LargeUtf8,
+    Utf8View,
+}
+
+#[derive(Clone, Copy, Debug, PartialEq, Eq, Serialize, Deserialize)]
+pub enum Flavor {
+    CurrentThread,
+    MultiThread(usize),
+}
+
+/// One execution configuration (plain data; part of replay files).
+#[derive(Clone, Debug, PartialEq, Serialize, Deserialize)]
+pub struct Variant {
+    /// `datafusion.*` options applied with `ConfigOptions::set` in order
+    pub options: Vec<(String, String)>,
+    pub target_partitions: usize,
+    /// None = engine default (8192)
+    pub batch_size: Option<usize>,
+    /// number of MemTable partitions each table is split into (round-robin over its batches)
+    pub mem_partitions: usize,
+    /// rows per MemTable batch (None = one batch per table); the last batch may be shorter
+    pub batch_rows: Option<usize>,
+    pub strings: StrEncoding,
+    pub flavor: Flavor,
+    pub timeout_ms: u64,
+}
+
+impl Default for Variant {
+    fn default() -> Self {
+        Variant { options: vec![], target_partitions: 1, batch_size: None, mem_partitions: 1, batch_rows: None, strings: StrEncoding::Utf8, flavor: Flavor::CurrentThread, timeout_ms: 20_000 }
+    }
+}
+
+#[derive(Clone, Copy, Debug, PartialEq, Eq, Hash, PartialOrd, Ord, Serialize, Deserialize)]
+pub enum ErrClass {
+    Plan,
+    SchemaError,
+    Sql,
+    NotImplemented,
+    Internal,
+    Execution,
+    DivideByZero,
+    ArrowCast,
+    ArrowOther,
+    ResourcesExhausted,
+    Io,
+    External,
+    Configuration,
+    Other,
+}
+
+impl ErrClass {
+    /// a clean "this statement is rejected / unsupported" answer (never a wrong result)
+    pub fn is_clean_rejection(self) -> bool {
+        matches!(self, ErrClass::Plan | ErrClass::SchemaError | ErrClass::Sql | ErrClass::NotImplemented)
+    }
+}
+
+#[derive(Clone, Copy, Debug, PartialEq, Eq, Serialize, Deserialize)]
+pub enum Stage {
+    Setup,
+    /// SQL → logical plan (parser, planner, analyzer)
+    Logical,
+    Optimize,
+    Physical,
+    Execute,
+}
+
+#[derive(Clone, Debug)]
+pub struct ErrInfo {
+    pub class: ErrClass,
+    pub stage: Stage,
+    pub message: String,
+}
+
+#[derive(Clone, Debug)]
+pub enum Outcome {
+    Rows(Vec<Vec<Value>>),
+    Error(ErrInfo),
+    /// the per-case timeout expired (→ `CaseResult::inconclusive`)
+    Timeout,
+}
+
+#[derive(Clone, Debug, Default)]
+pub struct Plans {
+    /// analyzed-but-unoptimized logical plan (`display_indent`)
+    pub logical: String,
+    pub optimized: String,
+    /// `displayable(plan).indent(false)`
+    pub physical: String,
+}
+
+#[derive(Clone, Debug)]
+pub struct RunOutput {
+    pub outcome: Outcome,
+    /// output column names and Arrow types (as text) when planning succeeded
+    pub columns: Vec<(String, String)>,
+    pub plans: Option<Plans>,
+    pub elapsed_ms: u64,
+}
+
+impl RunOutput {
+    pub fn rows(&self) -> Option<&Vec<Vec<Value>>> {
+        match &self.outcome {
+            Outcome::Rows(r) => Some(r),
+            _ => None,
+        }
+    }
+    pub fn error(&self) -> Option<&ErrInfo> {
+        match &self.outcome {
+            Outcome::Error(e) => Some(e),
+            _ => None,
+        }
+    }
+}
+
+pub fn classify_error(e: &DataFusionError) -> ErrClass {
+    match e.find_root() {
+        DataFusionError::ArrowError(a, _) => classify_arrow(a),
+        DataFusionError::SQL(..) => ErrClass::Sql,
+        DataFusionError::NotImplemented(_) => ErrClass::NotImplemented,
+        DataFusionError::Internal(_) => ErrClass::Internal,
+        DataFusionError::Plan(_) => ErrClass::Plan,
+        DataFusionError::Configuration(_) => ErrClass::Configuration,
+        DataFusionError::SchemaError(..) => ErrClass::SchemaError,
+        DataFusionError::Execution(_) => ErrClass::Execution,
+        DataFusionError::ExecutionJoin(_) => ErrClass::Execution,
+        DataFusionError::ResourcesExhausted(_) => ErrClass::ResourcesExhausted,
+        DataFusionError::IoError(_) | DataFusionError::ObjectStore(_) | DataFusionError::ParquetError(_) => ErrClass::Io,
+        DataFusionError::External(_) => ErrClass::External,
+        _ => ErrClass::Other,
+    }
+}
+
+fn classify_arrow(a: &ArrowError) -> ErrClass {
+    match a {
+        ArrowError::DivideByZero => ErrClass::DivideByZero,
+        ArrowError::CastError(_) | ArrowError::ParseError(_) => ErrClass::ArrowCast,
+        ArrowError::NotYetImplemented(_) => ErrClass::NotImplemented,
+        ArrowError::ExternalError(inner) => {
+            if let Some(df) = inner.downcast_ref::<DataFusionError>() {
+                classify_error(df)
+            } else if let Some(ar) = inner.downcast_ref::<ArrowError>() {
+                classify_arrow(ar)
+            } else {
+                ErrClass::ArrowOther
+            }
+        }
+        _ => ErrClass::ArrowOther,
+    }
+}
+
+fn err_info(e: &DataFusionError, stage: Stage) -> ErrInfo {
+    ErrInfo { class: classify_error(e), stage, message: vf_kit::engine::truncate(&e.strip_backtrace(), 1500) }
+}
+
+// ---------------------------------------------------------------------------------------------
+// Arrow <-> Value
+
+pub fn arrow_type(ty: Ty, strings: StrEncoding) -> DataType {
+    match ty {
+        Ty::Int => DataType::Int64,
+        Ty::Float => DataType::Float64,
+        Ty::Bool => DataType::Boolean,
+        Ty::Str => match strings {
+            StrEncoding::Utf8 => DataType::Utf8,
+            StrEncoding::LargeUtf8 => DataType::LargeUtf8,
+            StrEncoding::Utf8View => DataType::Utf8View,
+        },
+    }
+}
+
+/// Arrow schema of a table: every column nullable unless it holds no NULL and is named like the unique id.
+pub fn schema_of(cols: &[ColDef], strings: StrEncoding) -> SchemaRef {
+    Arc::new(Schema::new(cols.iter().map(|c| Field::new(&c.name, arrow_type(c.ty, strings), true)).collect::<Vec<_>>()))
+}
+
+/// One column of values → Arrow array of the column's type. A value of another type is a harness bug → Err.
+pub fn column_to_array(ty: Ty, strings: StrEncoding, values: &mut dyn Iterator<Item = &Value>) -> Result<ArrayRef, String> {
+    Ok(match ty {
+        Ty::Int => {
+            let mut b = Int64Builder::new();
+            for v in values {
+                match v {
+                    Value::Null => b.append_null(),
+                    Value::Int(i) => b.append_value(*i),
+                    o => return Err(format!("Int column holds {o:?}")),
+                }
+            }
+            Arc::new(b.finish())
+        }
+        Ty::Float => {
+            let mut b = Float64Builder::new();
+            for v in values {
+                match v {
+                    Value::Null => b.append_null(),
+                    Value::Float(f) => b.append_value(*f),
+                    o => return Err(format!("Float column holds {o:?}")),
+                }
+            }
+            Arc::new(b.finish())
+        }
+        Ty::Bool => {
+            let mut b = BooleanBuilder::new();
+            for v in values {
+                match v {
+                    Value::Null => b.append_null(),
+                    Value::Bool(x) => b.append_value(*x),
+                    o => return Err(format!("Bool column holds {o:?}")),
+                }
+            }
+            Arc::new(b.finish())
+        }
+        Ty::Str => {
+            let mut strs: Vec<Option<&str>> = vec![];
+            for v in values {
+                match v {
+                    Value::Null => strs.push(None),
+                    Value::Str(s) => strs.push(Some(s.as_str())),
+                    o => return Err(format!("Str column holds {o:?}")),
+                }
+            }
+            match strings {
+                StrEncoding::Utf8 => Arc::new(StringArray::from(strs)),
+                StrEncoding::LargeUtf8 => Arc::new(LargeStringArray::from(strs)),
+                StrEncoding::Utf8View => Arc::new(StringViewArray::from(strs)),
+            }
+        }
+    })
+}
+
+/// Split a table into record batches of `batch_rows` rows (None = a single batch; an empty table gives no batch).
+pub fn table_to_batches(t: &Table, strings: StrEncoding, batch_rows: Option<usize>) -> Result<(SchemaRef, Vec<RecordBatch>), String> {
+    let schema = schema_of(&t.cols, strings);
+    let n = t.rows.len();
+    let step = batch_rows.unwrap_or(n).max(1);
+    let mut batches = vec![];
+    let mut at = 0;
+    while at < n {
+        let end = (at + step).min(n);
+        let mut arrays = vec![];
+        for (ci, c) in t.cols.iter().enumerate() {
+            let mut it = t.rows[at..end].iter().map(|r| &r[ci]);
+            arrays.push(column_to_array(c.ty, strings, &mut it)?);
+        }
+        batches.push(RecordBatch::try_new(schema.clone(), arrays).map_err(|e| e.to_string())?);
+        at = end;
+    }
+    Ok((schema, batches))
+}
+
+/// MemTable over the table's batches dealt round-robin into `mem_partitions` partitions.
+pub fn mem_table(t: &Table, v: &Variant) -> Result<MemTable, String> {
+    if let Some(r) = t.rows.iter().find(|r| r.len() != t.cols.len()) {
+        return Err(format!("table {} has a row of arity {} (expected {})", t.name, r.len(), t.cols.len()));
+    }
+    let (schema, batches) = table_to_batches(t, v.strings, v.batch_rows)?;
+    let np = v.mem_partitions.max(1);
+    let mut parts: Vec<Vec<RecordBatch>> = vec![vec![]; np];
+    for (i, b) in batches.into_iter().enumerate() {
+        parts[i % np].push(b);
+    }
+    MemTable::try_new(schema, parts).map_err(|e| e.to_string())
+}
+
+/// Logical value of one array slot.
+pub fn array_value(a: &dyn Array, i: usize) -> Value {
+    if a.is_null(i) {
+        return Value::Null;
+    }
+    macro_rules! prim {
+        ($t:ty, $conv:expr) => {{
+            let arr = a.as_any().downcast_ref::<$t>().unwrap();
+            $conv(arr.value(i))
+        }};
+    }
+    match a.data_type() {
+        DataType::Null => Value::Null,
+        DataType::Boolean => prim!(BooleanArray, Value::Bool),
+        DataType::Int8 => prim!(Int8Array, |v: i8| Value::Int(v as i64)),
+        DataType::Int16 => prim!(Int16Array, |v: i16| Value::Int(v as i64)),
+        DataType::Int32 => prim!(Int32Array, |v: i32| Value::Int(v as i64)),
+        DataType::Int64 => prim!(Int64Array, Value::Int),
+        DataType::UInt8 => prim!(UInt8Array, |v: u8| Value::Int(v as i64)),
+        DataType::UInt16 => prim!(UInt16Array, |v: u16| Value::Int(v as i64)),
+        DataType::UInt32 => prim!(UInt32Array, |v: u32| Value::Int(v as i64)),
+        DataType::UInt64 => prim!(UInt64Array, |v: u64| if v <= i64::MAX as u64 { Value::Int(v as i64) } else { Value::Str(v.to_string()) }),
+        DataType::Float16 => prim!(Float16Array, |v| Value::Float(f64::from(v))),
+        DataType::Float32 => prim!(Float32Array, |v: f32| Value::Float(v as f64)),
+        DataType::Float64 => prim!(Float64Array, Value::Float),
+        DataType::Utf8 => prim!(StringArray, |v: &str| Value::Str(v.to_string())),
+        DataType::LargeUtf8 => prim!(LargeStringArray, |v: &str| Value::Str(v.to_string())),
+        DataType::Utf8View => prim!(StringViewArray, |v: &str| Value::Str(v.to_string())),
+        DataType::Dictionary(_, _) => {
+            let d = a.as_any_dictionary();
+            let keys = d.normalized_keys();
+            array_value(d.values().as_ref(), keys[i])
+        }
+        _ => {
+            let opts = FormatOptions::default();
+            match ArrayFormatter::try_new(a, &opts) {
+                Ok(f) => Value::Str(f.value(i).to_string()),
+                Err(_) => Value::Str(format!("<{}>", a.data_type())),
+            }
+        }
+    }
+}
+
+pub fn batches_to_rows(batches: &[RecordBatch]) -> Vec<Vec<Value>> {
+    let mut rows = vec![];
+    for b in batches {
+        let cols: Vec<&ArrayRef> = b.columns().iter().collect();
+        for i in 0..b.num_rows() {
+            rows.push(cols.iter().map(|c| array_value(c.as_ref(), i)).collect());
+        }
+    }
+    rows
+}
+
+// ---------------------------------------------------------------------------------------------
+// context / runtime
+
+pub fn build_runtime(v: &Variant) -> std::io::Result<tokio::runtime::Runtime> {
+    match v.flavor {
+        Flavor::CurrentThread => tokio::runtime::Builder::new_current_thread().enable_all().build(),
+        Flavor::MultiThread(n) => tokio::runtime::Builder::new_multi_thread().worker_threads(n.max(1)).enable_all().build(),
+    }
+}
+
+pub fn session_config(v: &Variant) -> Result<SessionConfig, DataFusionError> {
+    let mut cfg = SessionConfig::new().with_target_partitions(v.target_partitions.max(1)).with_information_schema(false);
+    if let Some(b) = v.batch_size {
+        cfg = cfg.with_batch_size(b.max(1));
+    }
+    for (k, val) in &v.options {
+        cfg.options_mut().set(k, val)?;
+    }
+    Ok(cfg)
+}
+
+/// Fresh `SessionContext` (fresh `RuntimeEnv`) for the variant; `customize` may replace rule lists etc.
+pub fn build_context(v: &Variant, customize: impl FnOnce(SessionStateBuilder) -> SessionStateBuilder) -> Result<SessionContext, DataFusionError> {
+    let cfg = session_config(v)?;
+    let rt = Arc::new(RuntimeEnv::default());
+    let b = SessionStateBuilder::new().with_config(cfg).with_runtime_env(rt).with_default_features();
+    let state = customize(b).build();
+    Ok(SessionContext::new_with_state(state))
+}
+
+pub fn register_tables(ctx: &SessionContext, tables: &[Table], v: &Variant) -> Result<(), String> {
+    for t in tables {
+        let mt = mem_table(t, v)?;
+        ctx.register_table(t.name.as_str(), Arc::new(mt)).map_err(|e| e.to_string())?;
+    }
+    Ok(())
+}
+
+/// Plan and execute one SQL text on a prepared context, stage by stage.
+pub async fn execute_sql(ctx: &SessionContext, sql: &str, want_plans: bool) -> (Outcome, Vec<(String, String)>, Option<Plans>) {
+    let state = ctx.state();
+    let logical = match state.create_logical_plan(sql).await {
+        Ok(p) => p,
+        Err(e) => return (Outcome::Error(err_info(&e, Stage::Logical)), vec![], None),
+    };
+    let columns: Vec<(String, String)> = logical.schema().fields().iter().map(|f| (f.name().clone(), f.data_type().to_string())).collect();
+    let mut plans = if want_plans { Some(Plans { logical: logical.display_indent().to_string(), ..Default::default() }) } else { None };
+    let optimized = match state.optimize(&logical) {
+        Ok(p) => p,
+        Err(e) => return (Outcome::Error(err_info(&e, Stage::Optimize)), columns, plans),
+    };
+    if let Some(p) = plans.as_mut() {
+        p.optimized = optimized.display_indent().to_string();
+    }
+    let physical = match state.query_planner().create_physical_plan(&optimized, &state).await {
+        Ok(p) => p,
+        Err(e) => return (Outcome::Error(err_info(&e, Stage::Physical)), columns, plans),
+    };
+    if let Some(p) = plans.as_mut() {
+        p.physical = datafusion::physical_plan::displayable(physical.as_ref()).indent(false).to_string();
+    }
+    match datafusion::physical_plan::collect(physical, ctx.task_ctx()).await {
+        Ok(batches) => (Outcome::Rows(batches_to_rows(&batches)), columns, plans),
+        Err(e) => (Outcome::Error(err_info(&e, Stage::Execute)), columns, plans),
+    }
+}
+
+/// Full control: build runtime + context for the variant, register the tables, run `f` under the
+/// per-case timeout. Returns None on timeout, Err on setup failure.
+pub fn run_in_context<T, F, Fut>(tables: &[Table], v: &Variant, customize: impl FnOnce(SessionStateBuilder) -> SessionStateBuilder, f: F) -> Result<Option<T>, ErrInfo>
+where
+    F: FnOnce(SessionContext) -> Fut,
+    Fut: std::future::Future<Output = T>,
+{
+    let setup = |m: String| ErrInfo { class: ErrClass::Other, stage: Stage::Setup, message: m };
+    let rt = build_runtime(v).map_err(|e| setup(e.to_string()))?;
+    let ctx = build_context(v, customize).map_err(|e| err_info(&e, Stage::Setup))?;
+    register_tables(&ctx, tables, v).map_err(setup)?;
+    let timeout = Duration::from_millis(v.timeout_ms.max(1));
+    let out = rt.block_on(async { tokio::time::timeout(timeout, f(ctx)).await.ok() });
+    rt.shutdown_timeout(Duration::from_millis(200));
+    Ok(out)
+}
+
+pub fn run_sql_with(tables: &[Table], sql: &str, v: &Variant, want_plans: bool, customize: impl FnOnce(SessionStateBuilder) -> SessionStateBuilder) -> RunOutput {
+    let t0 = Instant::now();
+    let sql_owned = sql.to_string();
+    let r = run_in_context(tables, v, customize, |ctx| async move { execute_sql(&ctx, &sql_owned, want_plans).await });
+    let elapsed_ms = t0.elapsed().as_millis() as u64;
+    match r {
+        Err(e) => RunOutput { outcome: Outcome::Error(e), columns: vec![], plans: None, elapsed_ms },
+        Ok(None) => RunOutput { outcome: Outcome::Timeout, columns: vec![], plans: None, elapsed_ms },
+        Ok(Some((outcome, columns, plans))) => RunOutput { outcome, columns, plans, elapsed_ms },
+    }
+}
+
+/// Run one SQL text over the tables under the variant (fresh runtime and context).
+pub fn run_sql(tables: &[Table], sql: &str, v: &Variant, want_plans: bool) -> RunOutput {
+    run_sql_with(tables, sql, v, want_plans, |b| b)
+}
+
+/// `CREATE TABLE … AS VALUES` script reproducing a case in datafusion-cli (for violation messages).
+pub fn repro_script(tables: &[Table], sql: &str) -> String {
+    let mut s = String::new();
+    for t in tables {
+        let cols: Vec<String> = t.cols.iter().map(|c| format!("{} {}", c.name, c.ty.sql())).collect();
+        if t.rows.is_empty() {
+            s.push_str(&format!("CREATE TABLE {}({});\n", t.name, cols.join(", ")));
+        } else {
+            let rows: Vec<String> = t.rows.iter().map(|r| format!("({})", r.iter().map(|v| v.to_sql_literal()).collect::<Vec<_>>().join(", "))).collect();
+            s.push_str(&format!("CREATE TABLE {}({}) AS VALUES {};\n", t.name, cols.join(", "), rows.join(", ")));
+        }
+    }
+    s.push_str(sql);
+    s.push_str(";\n");
+    s
+}
